@@ -112,7 +112,7 @@ def main():
                     break
         import glob
         for d in glob.glob(f"{VERIF}/harness/target-mut-seed-{name}*"):
-            if re.fullmatch(rf".*/target-mut-seed-{re.escape(name)}(-rel-nohooks|-rel-hooks|-rel|-fuzz|-dev)?", d):
+            if re.fullmatch(rf".*/target-mut-seed-{re.escape(name)}(-rel-nohooks|-rel-hooks|-rel-plain|-rel|-fuzz|-dev)?", d):
                 shutil.rmtree(d, ignore_errors=True)
     meta["checks"] = results
     meta["detected"] = any(v["exit"] == 1 for v in results.values())
